@@ -120,6 +120,11 @@ def check_obs(case, d, ref, keep, what):
     want_eu = ref["eu"] ** 2 if case["cov"] else ref["eu"]
     if d.rv_err.unit != want_eu:
         raise Violation("%s: uncertainty unit changed from %s to %s" % (what, want_eu, d.rv_err.unit))
+    n_d = len(d)
+    want_shape = (n_d, n_d) if case["cov"] else (n_d,)
+    if np.shape(d.rv_err.value) != want_shape or np.shape(d.rv.value) != (n_d,) or np.shape(d._t_bmjd) != (n_d,):
+        raise Violation("%s: stored arrays have inconsistent shapes (a covariance must stay a matrix, errors a vector)" % what,
+                        t=np.shape(d._t_bmjd), rv=np.shape(d.rv.value), rv_err=np.shape(d.rv_err.value), expected_rv_err=want_shape)
     tb = np.asarray(d._t_bmjd, dtype=float)
     finite_t = tb[np.isfinite(tb)]
     if np.any(np.diff(finite_t) < 0):
